@@ -109,9 +109,9 @@ theorem P.frameAddr_TInv (p : P) (h : TInv p) (t : Nat) (a : AddrSpec) (c s flag
   have hpr : (p.threads[t]).process < p.processes.length := hth.2.2.2.2.2.2.2.2.1
   unfold P.frameAddr
   simp only [P.threads_get ht, List.getElem?_eq_getElem hpr]
-  have hspec := resolveAddr_spec p.libs (p.processes[(p.threads[t]).process]).maps a h.libs
-    (h.maps _ (List.getElem_mem hpr)) (P.addrOk_pre ha)
-  cases hres : resolveAddr p.libs (p.processes[(p.threads[t]).process]).maps a with
+  have hspec := resolveAddr_spec p.libs (effMaps p.kmaps (p.processes[(p.threads[t]).process]).maps a) a h.libs
+    (effMaps_libs h.kmaps (h.maps _ (List.getElem_mem hpr)) a) (P.addrOk_pre ha)
+  cases hres : resolveAddr p.libs (effMaps p.kmaps (p.processes[(p.threads[t]).process]).maps a) a with
   | mk libs res =>
     rw [hres] at hspec
     simp only at hspec
@@ -225,9 +225,9 @@ theorem P.frameSym_TInv (p : P) (h : TInv p) (t : Nat) (a : AddrSpec) (name : Op
     have hth := h.thread (P.threads_get ht)
     have hpr : (p.threads[t]).process < p.processes.length := hth.2.2.2.2.2.2.2.2.1
     simp only [P.threads_get ht, List.getElem?_eq_getElem hpr]
-    have hspec := resolveAddr_spec p.libs (p.processes[(p.threads[t]).process]).maps a h.libs
-      (h.maps _ (List.getElem_mem hpr)) (P.addrOk_pre ha)
-    cases hres : resolveAddr p.libs (p.processes[(p.threads[t]).process]).maps a with
+    have hspec := resolveAddr_spec p.libs (effMaps p.kmaps (p.processes[(p.threads[t]).process]).maps a) a h.libs
+      (effMaps_libs h.kmaps (h.maps _ (List.getElem_mem hpr)) a) (P.addrOk_pre ha)
+    cases hres : resolveAddr p.libs (effMaps p.kmaps (p.processes[(p.threads[t]).process]).maps a) a with
     | mk libs res =>
       rw [hres] at hspec
       simp only at hspec
